@@ -29,7 +29,10 @@ PIPELINES = ['start', 'download', 'stats', 'conversion', 'stop']
 def gen_cfg(rng):
     cfg = {'app': True, 'items': rng.choice([0, 1, 2, 3, 5]), 'tasks': rng.choice([1, 2]), 'conc': rng.choice([1, 2, 3]),
            'conv_items': rng.choice([0, 1, 2]), 'stop': rng.random() < 0.5,
-           'stop_from': rng.choice(['start', 'download', 'download', 'download', 'stats'])}
+           'stop_from': rng.choice(['start', 'download', 'download', 'download', 'stats']),
+           # interrupt signals (what Ctrl-C delivers) through the handlers the application installs: the first one asks for
+           # a graceful stop - also when a stop was already requested by the program itself (--quota, a plug-in)
+           'sigints': rng.choice([0, 0, 1, 1, 2])}
     if rng.random() < 0.6:
         ch = [rng.choice([0, 0, 1, 2, 3]) for _ in range(rng.choice([1, 2, 3]))]
         if ch[-1] == 0 and rng.random() < 0.4:
@@ -64,6 +67,7 @@ def run_one(cfg, chooser, max_steps=6000):
     from wpull.application.app import Application
     log = []
     state = {'stop_requested_at': None, 'in_flight_at_stop': None, 'conc': cfg['conc']}
+    real = real_series_flags()        # (builds the real application once, on a loop of its own: before ours becomes current)
     loop = sched.new_loop(chooser, max_steps=max_steps)
     in_flight = set()
 
@@ -102,13 +106,35 @@ def run_one(cfg, chooser, max_steps=6000):
     series = PipelineSeries([pipes[n] for n in PIPELINES])
     # which pipelines may be skipped once a stop was requested, and which follow the series' concurrency, is taken from
     # the series the real Builder makes (same five positions)
-    real = real_series_flags()
     for name, (skippable, follows) in zip(PIPELINES, real):
         pipes[name].skippable = skippable
         if follows:
             series.concurrency_pipelines.add(pipes[name])
     series.concurrency = cfg['conc']
     app = Application(series)
+    handlers = {}
+    forced = []
+    loop.add_signal_handler = lambda sig, callback, *args: handlers.__setitem__(sig, callback)
+    real_stop = loop.stop
+    loop.stop = lambda: forced.append(loop.steps)          # (the forceful stop ends the event loop: recorded, not carried out)
+    if cfg.get('sigints'):
+        app.setup_signal_handlers()
+    state['sigints_delivered'] = 0
+
+    def make_sigint(k):
+        def deliver():
+            if app._state.value not in ('running', 'stopping') or main.done():
+                return
+            state['sigints_delivered'] += 1
+            if state['stop_requested_at'] is None:
+                state['stop_requested_at'] = len(log)
+                state['in_flight_at_stop'] = sorted(in_flight)
+                state['current_at_stop'] = next((n for n in PIPELINES if pipes[n] is app._current_pipeline), None)
+            log.append(('sigint', k, loop.steps))
+            handlers[signal.SIGINT]()
+            if k + 1 < cfg['sigints']:
+                loop.add_external('sigint#%d' % (k + 1), make_sigint(k + 1))
+        return deliver
 
     def do_stop():
         if app._state.value != 'running':
@@ -142,6 +168,8 @@ def run_one(cfg, chooser, max_steps=6000):
     def on_begin(pipeline):
         if cfg.get('stop') and pipeline is pipes[cfg.get('stop_from', 'start')]:
             loop.add_external('stop', do_stop)
+        if cfg.get('sigints') and pipeline is pipes[cfg.get('stop_from', 'start')]:
+            loop.add_external('sigint#0', make_sigint(0))
     app.event_dispatcher.add_listener(Application.Event.pipeline_begin, on_begin)
 
     async def main_wrapper():
@@ -162,6 +190,8 @@ def run_one(cfg, chooser, max_steps=6000):
         obs['spin'] = True
     finally:
         signal.alarm(0)
+        loop.stop = real_stop
+        obs['forced'] = list(forced)
         obs.update(quiescent=loop.quiescent, overrun=loop.overrun, steps=loop.steps, trace=list(loop.trace),
                    main_done=main.done(), log=log, state=state, counts=counts, ntasks=ntasks)
         if main.done():
@@ -183,6 +213,16 @@ def judge(obs, part, replay):
     cls = '{}{}'.format('stop' if stopped else 'no-stop', '/paused' if 0 in (cfg.get('changes') or []) else '')
     if stopped:
         part.count('app_runs_with_stop_during_' + str(state.get('current_at_stop')))
+    if state.get('sigints_delivered'):
+        part.count('app_runs_with_%d_interrupt_signals' % state['sigints_delivered'])
+    if obs.get('forced'):
+        if state.get('sigints_delivered', 0) <= 1:
+            # one interrupt only: that is the graceful request, whatever else asked for a stop before
+            part.violation('first-interrupt-signal-forces-the-stop/' + ('after-a-stop-request-by-the-program' if cfg.get('stop') else 'alone'),
+                           {'cfg': cfg, 'log': log[-10:]}, replay)
+        else:
+            part.count('app_forced_stop_after_second_interrupt')
+        return          # (a forced stop ends the event loop: nothing else is promised)
     if obs['spin'] or str(obs.get('main_exception') or '').startswith('SpinDetected'):
         part.violation('application-spins-without-yielding/' + cls, {'cfg': cfg, 'log': log[-12:]}, replay)
         return
